@@ -91,7 +91,7 @@ class Frame:
         self.defers = ()
         self.dest = dest
         self.owner = owner
-        self.iters = 0      # back edges taken in this activation
+        self.iters = None   # back edges taken in this activation, per target block
         self.tag = None
 
     def copy(self, owner):
@@ -100,7 +100,7 @@ class Frame:
         f.ip = self.ip
         f.prev = self.prev
         f.defers = self.defers
-        f.iters = self.iters
+        f.iters = dict(self.iters) if self.iters else None
         f.tag = self.tag
         return f
 
@@ -121,6 +121,7 @@ class State:
         self.steps = 0
         self.reached = []
         self.notes = {}
+        self.choices = ()
 
     def fork(self):
         s = State()
@@ -134,6 +135,7 @@ class State:
         s.steps = self.steps
         s.reached = list(self.reached)
         s.notes = dict(self.notes)
+        s.choices = self.choices
         return s
 
     def top(self):
@@ -179,7 +181,7 @@ class Engine:
         self.reach = {}
         self.final_states = []
         self.max_iters = int(self.opts.get("unwind", 64))
-        self.max_steps = int(self.opts.get("max_steps", 5_000_000))
+        self.max_steps = int(self.opts.get("max_steps", 200_000_000))
         self.known = set(self.opts.get("known_findings", ()))
         self.choice_fix = dict(self.opts.get("choices", {}))
         self.keep_final = self.opts.get("keep_final", False)
@@ -193,6 +195,11 @@ class Engine:
         self.init_state = None
         self.const_str = {}
         self.assert_sites = {}
+        self.bcache = {}
+        self.bkeep = []
+        self.choice_prefix = list(self.opts.get('choice_prefix', ()))
+        self.probe_depth = self.opts.get('probe_depth')
+        self.probe_out = []
 
     # ------------------------------------------------------------------ solver
     def _sync(self, pc):
@@ -276,7 +283,7 @@ class Engine:
         if r == "unsat":
             st.pc.append(cond)
             return True
-        if r == "sat":
+        if r == "sat" and kind != "unwind":
             ob = Obligation(kind, msg, pos, st, self.model_vals(st), "violated")
             self.violations.append(ob)
         else:
@@ -316,13 +323,23 @@ class Engine:
         cond = simp(cond)
         if type(cond) is bool:
             return [(st, cond)]
+        cid = cond.get_id()
+        ent = self.bcache.get(cid)
+        if ent is not None:
+            pc = st.pc
+            for pref, res in ent:
+                n = len(pref)
+                if n <= len(pc) and all(pc[i] is pref[i] for i in range(n)):
+                    return [(st, res)]
         r1 = self.check(st, cond)
         if r1 == "unsat":
-            st.pc.append(z3.Not(cond))
+            self.bcache.setdefault(cid, []).append((tuple(st.pc), False))
+            self.bkeep.append(cond)
             return [(st, False)]
         r2 = self.check(st, z3.Not(cond))
         if r2 == "unsat":
-            st.pc.append(cond)
+            self.bcache.setdefault(cid, []).append((tuple(st.pc), True))
+            self.bkeep.append(cond)
             return [(st, True)]
         if r1 == "unknown" or r2 == "unknown":
             self.unknowns.append(Obligation("branch", "feasibility unknown", None, st, None, "unknown"))
@@ -347,15 +364,15 @@ class Engine:
         return None
 
     # ------------------------------------------------------------------ memory
-    def load_path(self, val, path, st, pos):
+    def load_path(self, val, path, st, pos, bits=None):
         for p in path:
             if type(p) is int:
                 val = val[p]
             else:
-                val = self.sym_index(val, p, st, pos)
+                val = self.sym_index(val, p, st, pos, bits)
         return val
 
-    def sym_index(self, arr, idx, st, pos):
+    def sym_index(self, arr, idx, st, pos, bits=None):
         """read arr[idx] with symbolic idx (bounds already obliged)."""
         n = len(arr)
         first = arr[0]
@@ -375,22 +392,24 @@ class Engine:
             default = groups[order[-1]][0]
             isbool = type(first) is bool or (z3.is_expr(first) and z3.is_bool(first))
             ib = idx.size()
-            res = bl(default) if isbool else self._lift(default, arr)
+            res = bl(default) if isbool else self._lift(default, arr, bits)
             for k in order[:-1]:
                 e, idxs = groups[k]
                 c = z3.Or([idx == i for i in idxs]) if len(idxs) > 1 else idx == idxs[0]
-                res = z3.If(c, bl(e) if isbool else self._lift(e, arr), res)
+                res = z3.If(c, bl(e) if isbool else self._lift(e, arr, bits), res)
             return res
         # aggregate elements: build elementwise
         if type(first) is tuple:
-            return tuple(self.sym_index(tuple(a[j] for a in arr), idx, st, pos) for j in range(len(first)))
+            return tuple(self.sym_index(tuple(a[j] for a in arr), idx, st, pos, None) for j in range(len(first)))
         c = self.concretize(st, idx)
         if c is None:
             raise EngineError("symbolic index into non-scalar array at %s" % pos)
         return arr[c]
 
-    def _lift(self, e, arr):
+    def _lift(self, e, arr, bits=None):
         if type(e) is int:
+            if bits is not None:
+                return z3.BitVecVal(e, bits)
             for x in arr:
                 if z3.is_expr(x):
                     return z3.BitVecVal(e, x.size())
@@ -446,11 +465,11 @@ class Engine:
             return PtrV(a.obj, tuple(self.ite_val(c, x, y, 64) for x, y in zip(a.path, b.path)))
         raise EngineError("cannot form ite over %r / %r" % (a, b))
 
-    def deref(self, st, ptr, pos):
+    def deref(self, st, ptr, pos, bits=None):
         if ptr.obj is None:
             self.oblige(st, False, "panic", "nil pointer dereference", pos)
             return None
-        return self.load_path(st.mem[ptr.obj], ptr.path, st, pos)
+        return self.load_path(st.mem[ptr.obj], ptr.path, st, pos, bits)
 
     def store(self, st, ptr, val, pos, bits=None):
         if ptr.obj is None:
@@ -672,8 +691,11 @@ class Engine:
     # ------------------------------------------------------------------ control
     def goto(self, st, fr, target):
         if target <= fr.blk:
-            fr.iters += 1
-            if fr.iters > self.max_iters:
+            if fr.iters is None:
+                fr.iters = {}
+            n = fr.iters.get(target, 0) + 1
+            fr.iters[target] = n
+            if n > self.max_iters:
                 self.oblige(st, False, "unwind", "loop unwinding bound %d exceeded in %s" % (self.max_iters, fr.fn["name"]),
                             fr.fn.get("pos"))
                 st.status = "dead"
@@ -961,7 +983,7 @@ class Engine:
         x = self.val(st, fr, ins["x"])
         pos = ins.get("pos")
         if o == "*":
-            v = self.deref(st, x, pos)
+            v = self.deref(st, x, pos, self.p.types[ins["t"]].get("bits"))
             if st.status != "run":
                 return
             fr.env[ins["r"]] = v
@@ -1400,7 +1422,7 @@ class Engine:
             if not self.oblige(st, self.in_range(idx, len(x)), "panic", "index out of range", pos):
                 return
             idx = simp(idx)
-            fr.env[ins["r"]] = x[idx] if type(idx) is int else self.sym_index(x, idx, st, pos)
+            fr.env[ins["r"]] = x[idx] if type(idx) is int else self.sym_index(x, idx, st, pos, self.p.types[ins["t"]].get("bits"))
             return
         raise EngineError("index on " + xt["k"])
 
@@ -1413,7 +1435,7 @@ class Engine:
             idx = self.idx_norm(st, idx, ins["it"])
             if not self.oblige(st, self.in_range(idx, x.len), "panic", "string index out of range", pos):
                 return
-            v = self.deref(st, PtrV(x.obj, x.path + (self.add64(x.off, idx),)), pos)
+            v = self.deref(st, PtrV(x.obj, x.path + (self.add64(x.off, idx),)), pos, 8)
             fr.env[ins["r"]] = v
             return
         if xt["k"] == "map":
